@@ -304,7 +304,7 @@ pub fn run(ctx: &mut LaneCtx) {
     ctx.run_sub(
         SubSpec {
             name: "live-stacks-limit",
-            cases: (192, 8_000),
+            cases: (288, 8_000),
             rule: "as live-stacks but 22..48 threads and a size limit around the estimate threshold (+-3) or tiny, so that threads at list position >= 20 are shortened; oracle additionally: only positions >= 20 and never the crash-context thread are shortened, to <= 2048 bytes containing sp",
             strategy: (crate::props::fid::case_strategy(48, 22), prop_oneof![(-3i32..4).prop_map(crate::props::fid::LimitG::Around), Just(crate::props::fid::LimitG::Tiny)])
                 .prop_map(|(mut c, l)| {
